@@ -139,13 +139,15 @@ CHECKS = {
         "by the harness (exploration, not proof).",
    technique="Lean 4 totality proofs (no panic, length preserved) + differential/fuzz run under recover()",
    ref="DESIGN.md section 5 C12"),
- "C16": dict(engine="store",
+ "C16": dict(engine="store+sig",
    text="Lean 4 proofs over an executable model of token/stateful.go for every history of update/delete/get/list/expire with arbitrary tags, injected write/open "
         "failures, external edits/removals of the file and restarts: (1) C16_refines: the live view equals what a fresh process loads, for every history; (2) "
         "compare-and-swap: success only with the tag of the version replaced, at most one success per tag, creation requires absence; (3) revocation by delete/sweep is "
         "final across any later history and restart; (4) generic theorem safeReplace_atomic (every crash prefix of every syscall list of the decidable safe shape leaves "
         "old or new) with the side condition decided on syscall lists regenerated by strace from the real code on every run; the model is tied to the real code by a "
-        "differential run on every check, with a fresh-state reload after every op, and kill-at-every-syscall crash injection in the thorough tier",
+        "differential run on every check, with a fresh-state reload after every op, and kill-at-every-syscall crash injection in the thorough tier; the signalling "
+        "commands maketoken/edittoken are run through the real message handler with an injected failure of the file rewrite (sig engine), the oracle requiring that a "
+        "request answered with an error left the live table unchanged",
    note=TB + "File versions abstract and fresh (the harness makes successive versions differ in size); atomicity of a single write(2)/rename(2)/unlink(2) w.r.t. a process "
         "crash; strace's rendering of syscalls; no fsync (C16_no_fsync), so power-loss durability is outside the model; all five entry points hold the same mutex for the "
         "only instance in production.",
